@@ -39,8 +39,16 @@ func c07Program(spec string) (string, []c07Block) {
 		b.WriteString("/^(-?\\d+)$/ {\n  settime($1)\n  ts = timestamp()\n  n++\n}\n")
 	case "now":
 		b.WriteString("/./ {\n  ts = timestamp()\n  n++\n}\n")
+	case "settime+now":
+		// lines that set the time and lines that do not, in one program: nothing carries over
+		b.WriteString("/^(-?\\d+)$/ {\n  settime($1)\n  ts = timestamp()\n  n++\n}\n/^N/ {\n  ts = timestamp()\n  n++\n}\n")
 	default:
 		for _, part := range strings.Split(spec, "|") {
+			if part == "N" {
+				// a block that neither parses nor sets a time: processing time, whatever earlier lines did
+				b.WriteString("/^N / {\n  ts = timestamp()\n  n++\n}\n")
+				continue
+			}
 			kv := strings.SplitN(part, "=", 2)
 			blocks = append(blocks, c07Block{kv[0], kv[1]})
 			fmt.Fprintf(&b, "/^%s (.+)$/ {\n  strptime($1, \"%s\")\n  ts = timestamp()\n  n++\n}\n", kv[0], kv[1])
@@ -123,8 +131,10 @@ func c07Run(r *runCtx, id string, f []string) {
 		}
 		var w want
 		switch spec {
-		case "settime":
-			if settimeRe.MatchString(l) {
+		case "settime", "settime+now":
+			if spec == "settime+now" && strings.HasPrefix(l, "N") {
+				w.applies, w.now = true, true
+			} else if settimeRe.MatchString(l) {
 				v, perr := strconv.ParseInt(l, 10, 64)
 				if perr != nil {
 					w.conv = true // the capture does not fit an int: the checked conversion error
@@ -141,6 +151,9 @@ func c07Run(r *runCtx, id string, f []string) {
 				w.applies, w.now = true, true
 			}
 		default:
+			if strings.Contains("|"+spec+"|", "|N|") && strings.HasPrefix(l, "N ") && !strings.Contains(l, "\n") {
+				w.applies, w.now = true, true
+			}
 			for _, b := range blocks {
 				if strings.HasPrefix(l, b.tag+" ") && len(l) > len(b.tag)+1 && !strings.Contains(l, "\n") {
 					ref.now = t0
@@ -270,6 +283,23 @@ func init() {
 					g.emit("time", flagsets[(i+j)%len(flagsets)], hx("A="+la+"|B="+lb), hxs(lines))
 				}
 			}
+			// lines with and without a parsed or set time in one program: the default is the processing
+			// time on every line, whatever the lines before it did
+			for i, la := range c07Layouts {
+				if !g.thorough() && i%2 != 0 {
+					continue
+				}
+				var lines []string
+				for k, in := range c07Instants() {
+					lines = append(lines, "N x", "A "+in.Format(la), "N y")
+					if k%2 == 0 {
+						lines = append(lines, "A "+c07Values[k%len(c07Values)], "N z")
+					}
+				}
+				g.emit("time", flagsets[i%len(flagsets)], hx("A="+la+"|N"), hxs(lines))
+			}
+			g.emit("time", "-", hx("settime+now"), hxs([]string{"N", "1700000000", "N", "5", "Nn", "-62135596800", "N", "x", "N"}))
+			g.emit("time", "y+zEurope/Paris", hx("settime+now"), hxs([]string{"1700000000", "N", "N"}))
 			// settime
 			g.emit("time", "-", hx("settime"), hxs([]string{"0", "1", "-1", "1700000000", "-62135596800", "-62135596801", "-62135596799",
 				"9223372036", "9223372037", "-9223372037", "9223372036854775807", "-9223372036854775808", "253402300799", "x", "12 13", "99999999999999999999"}))
